@@ -92,7 +92,7 @@ package main
 //@ define yamlFails = path != "" && (second(ioutil.ReadFile(path)) != nil || yamlErr(first(ioutil.ReadFile(path))) != nil)
 //@ define cliList(n, cur) = imp(p(n) != "", cur != nil && has(cur, k0) == member(strings.Split(p(n), "+"), k0))
 //@ define cliStr(n, cur) = imp(p(n) != "", cur == p(n))
-//@ modifies *
+//@ # frame: only the fresh configuration is written
 //@ ensures [C16] imp(yamlFails, result1 != nil)
 //@ ensures [C16] imp(result1 == nil, result0 != nil && len(result0.Types) > 0)
 //@ ensures [C16] imp(result1 != nil, result0 == nil)
@@ -701,6 +701,86 @@ package main
 //@ ensures [C12,C01] imp(result == nil && 0 <= g && g < len(m) && m[g].IsRoot, hasSchema(wbuf(out), m[g]) && hasCopyFrom(wbuf(out), m[g]) && hasCopyTo(wbuf(out), m[g]))
 //@ ensures [C01] imp(result == nil, hasShared(wbuf(out)))
 
+// ===================================================================== main.go (C01): post-processing of the generated file
+
+// ---- regexp: a match is a substring of the subject; a match of "package (.+)\n" starts with
+// "package " and ends with the newline (assumed: semantics of this one pattern)
+//@ specfunc rePattern(*regexp.Regexp) string
+//@ extern regexp.MustCompile(str)
+//@ ensures result != nil && rePattern(result) == str
+//@ extern regexp.Regexp.FindString(re, s)
+//@ ensures result == "" || strcontains(s, result)
+//@ ensures imp(result != "" && rePattern(re) == "package (.+)\n", prefix(result, "package ") && suffix(result, "\n"))
+
+// the license text goes first
+//@ func prependLicense
+//@ ensures [C01] result1 == nil && result0 == license + s
+
+// the first package clause is rewritten to the target package; a text without one is left alone;
+// whatever precedes the clause (the license header) is untouched
+//@ func replacePackageName
+//@ define pkg = packageReplacementRegexp.FindString(s)
+//@ ensures [C01] result == ite(pkg == "", s, replacefirst(s, pkg, "package " + target + "\n"))
+//@ ensures [C01] imp(pkg != "", strcontains(result, "package " + target + "\n"))
+//@ ensures [C01] imp(prefix(s, license), prefix(result, license))
+
+// ---- gogo plugin protocol: generated getter
+//@ extern plugin_go.CodeGeneratorResponse.GetFile(m)
+//@ ensures imp(m != nil, same(result, m.File)) && imp(m == nil, len(result) == 0)
+
+// every file with content is passed through goimports, gets the license header and, when a target
+// package is configured, the rewritten package clause; a goimports failure fails the run
+//@ func runGoImports
+//@ propagates [C01]
+//@ ghost g int
+//@ requires p != nil && p.Config != nil && resp != nil
+//@ ghost h int
+//@ requires imp(0 <= g && g < len(resp.File), resp.File[g] != nil)
+//@ # the response lists every file once
+//@ requires imp(0 <= g && g < len(resp.File) && 0 <= h && h < len(resp.File) && g != h, resp.File[g] != resp.File[h])
+//@ # prependLicense never fails: its error branch cannot fire
+//@ unreachable 1
+//@ modifies *
+//@ define files = old(resp.File)
+//@ define had(k) = old(resp.File[k].Content) != nil
+//@ invariant[0] same(resp.File, files) && p.Config == old(p.Config) && p.Config.TargetPackageName == old(p.Config.TargetPackageName)
+//@ invariant[0] imp(0 <= g && g < len(files), resp.File[g] == old(resp.File[g]) && resp.File[g] != nil)
+//@ invariant[0] imp(0 <= g && g < len(files) && !done(g), resp.File[g].Content == old(resp.File[g].Content))
+//@ invariant[0] imp(done(g) && had(g), resp.File[g].Content != nil && prefix(*resp.File[g].Content, license))
+//@ invariant[0] imp(done(g) && !had(g), resp.File[g].Content == nil)
+//@ ensures [C01] imp(result == nil && 0 <= g && g < len(files) && had(g), resp.File[g].Content != nil && prefix(*resp.File[g].Content, license))
+//@ ensures [C01] imp(result == nil && 0 <= g && g < len(files) && !had(g), resp.File[g].Content == nil)
+
+// ---- gogo generator: Fail logs and exits the process
+//@ extern generator.Generator.Fail(g, msgs)
+//@ ensures false
+
+// one file of the request: fresh import table, build the registry, write it out; the registry
+// invariant (C12) holds across files; a write failure ends the process
+//@ func Plugin.Generate
+//@ ghost g int
+//@ ghost h int
+//@ ghost j0 int
+//@ ghost k0 int
+//@ define msgs = file.Messages()
+//@ requires p != nil && p.Config != nil && p.Generator != nil && p.PluginImports != nil && file != nil && file.FileDescriptorProto != nil && file.Name != nil
+//@ requires !strcontains(p.Config.DefaultPackageName, "(")
+//@ requires imp(0 <= k0 && k0 < len(msgs), descOK(p.Generator, msgs[k0], j0))
+//@ requires [C12] regOK(p, g) && regOK(p, h)
+//@ modifies *
+//@ ensures [C12] regOK(p, g)
+
+// the configuration is read once; a configuration error ends the process
+//@ extern generator.NewPluginImports(g)
+//@ ensures result != nil
+//@ func Plugin.Init
+//@ requires p != nil && g != nil
+//@ modifies *
+//@ ensures [C16] p.Generator == g && p.PluginImports != nil && p.Config != nil && len(p.Config.Types) > 0
+//@ func NewPlugin
+//@ ghost g int
+//@ ensures result != nil && fresh(result) && len(result.Messages) == 0 && regOK(result, g)
+
 // ===================================================================== CopyFrom, emitted code
 
 //@ emits CopyFrom when true
@@ -761,6 +841,8 @@ package main
 
 //@ emits CopyFrom when Kind == "Primitive" && OneOf
 //@ ensures [C07,C19,C04] imp(known, same(wf.F, $CastFrom(v.Value)))
+//@ # all three attributes present with their types: nothing to report
+//@ ensures [C06,C04] imp(okT && pg && is(ag, types.Int64) && has(tf.Attrs, "s") && is(tf.Attrs["s"], types.Int64), len(result) == 0)
 
 // child of a nullable embedded message: the parent is allocated on demand
 //@ emits CopyFrom when Embed
@@ -773,6 +855,8 @@ package main
 
 //@ emits CopyFrom when Kind == "Primitive" && Embed && !IsNullable
 //@ ensures [C05] imp(okT && !known, emb == nil || same(emb.F, zero($GoType)))
+//@ # ... and a parent is never allocated for a null value
+//@ ensures [C05,C04] imp(okT && !known, emb == old(emb))
 //@ ensures [C04,C19] imp(known, same(emb.F, $CastFrom(v.Value)))
 
 //@ emits CopyFrom when Kind == "Primitive" && Embed && IsNullable
@@ -846,6 +930,13 @@ package main
 //@ emits CopyFrom when Kind == "PrimitiveList" && Ctx == "plain"
 //@ invariant[0] diags == noDiags || diags == dinsert(noDiags, econvD)
 //@ ensures [C06] imp(known, result == noDiags || result == dinsert(noDiags, econvD))
+//@ # a diagnostic has a witness: badIdx chooses an ill-typed element whenever there is one (choice
+//@ # function, axiom instantiated at the ghost index), so "no ill-typed element" gives "no diagnostic"
+//@ define bad = badIdx(v.Elems)
+//@ define badOK = 0 <= bad && bad < len(v.Elems) && !is(v.Elems[bad], $EVT)
+//@ assume imp(inr && !is(e, $EVT), badOK)
+//@ invariant[0] imp(diags != noDiags, badOK)
+//@ ensures [C06,C04] imp(known && result != noDiags, badOK)
 
 //@ emits CopyFrom when Kind == "PrimitiveList" && Ctx == "plain" && !IsNullable
 //@ define want = ite(eknown, $CastFrom(ev.Value), zero($GoElemType))
@@ -912,6 +1003,12 @@ package main
 //@ emits CopyFrom when Kind == "PrimitiveMap" && Ctx == "plain"
 //@ invariant[0] diags == noDiags || diags == dinsert(noDiags, econvD)
 //@ ensures [C06] imp(known, result == noDiags || result == dinsert(noDiags, econvD))
+//@ # witness of a diagnostic (see lists)
+//@ define bad = badKey(v.Elems)
+//@ define badOK = has(v.Elems, bad) && !is(v.Elems[bad], $EVT)
+//@ assume imp(inr && !is(e, $EVT), badOK)
+//@ invariant[0] imp(diags != noDiags, badOK)
+//@ ensures [C06,C04] imp(known && result != noDiags, badOK)
 
 //@ emits CopyFrom when Kind == "PrimitiveMap" && Ctx == "plain" && !IsNullable
 //@ define want = ite(eknown, $CastFrom(ev.Value), zero($GoElemType))
@@ -1020,6 +1117,7 @@ package main
 
 //@ emits CopyTo when Kind == "Primitive" && Ctx == "plain" && IsNullable
 //@ ensures [C20,C09] imp(hasT, o.Null == (obj.F == nil))
+//@ ensures [C08] imp(hasT && prevOK && obj.F == nil, same(o.Value, prev.Value))
 //@ ensures [C19,C03,C08,C09] imp(hasT && obj.F != nil, same(o.Value, $GoElemTypeIndirect(*obj.F)))
 
 //@ emits CopyTo when IsPlaceholder
@@ -1040,6 +1138,9 @@ package main
 
 //@ emits CopyTo when Kind == "Primitive" && Embed && !IsNullable && HasZero
 //@ ensures [C20] imp(hasT && !prevOK && emb != nil, o.Null == ($CastTo(emb.F) == $ZeroValue))
+
+//@ emits CopyTo when Kind == "Primitive" && Embed && !IsNullable && !HasZero
+//@ ensures [C20,C04] imp(hasT && !prevOK && emb != nil, !o.Null)
 
 //@ emits CopyTo when Kind == "Primitive" && Embed && IsNullable
 //@ ensures [C20] imp(hasT && emb != nil, o.Null == (emb.F == nil))
@@ -1072,6 +1173,8 @@ package main
 //@ ensures [C07,C03,C08,C09] imp(hasTg, has(tf.Attrs, "g") && is(outg, types.Int64) && !og.Unknown)
 //@ ensures [C07,C20] imp(hasTg && !prevGOK, og.Null == !(gactive && wg.G != 0))
 //@ ensures [C07] imp(hasTg && gactive, og.Value == int64(wg.G))
+//@ # the plain field between the branches is written like any scalar
+//@ ensures [C03,C04] imp(hasTs, has(tf.Attrs, "s") && is(tf.Attrs["s"], types.Int64) && !as(tf.Attrs["s"], types.Int64).Unknown && as(tf.Attrs["s"], types.Int64).Value == int64(obj.S))
 
 //@ emits CopyTo when Kind == "Primitive" && OneOf
 //@ ensures [C06] imp(hasT && hasTg && hasTs, len(result) == 0)
@@ -1136,6 +1239,9 @@ package main
 //@ ensures [C06] imp(isOT && !live, len(result) == 0)
 
 //@ emits CopyTo when Kind == "Object" && Ctx == "plain" && Nested == "empty"
+//@ define activeMissing = attrWriteMissingDiag{"$Path.active"}
+//@ ensures [C06,C03] imp(live, result == ite(has(o.AttrTypes, "active"), noDiags, dinsert(noDiags, activeMissing)))
+//@ ensures [C06] imp(isOT && !live, len(result) == 0)
 //@ ensures [C03,C10,C20] imp(live && has(o.AttrTypes, "active") && !(prevOK && has(prev.Attrs, "active") && is(prev.Attrs["active"], types.Bool)), has(o.Attrs, "active") && is(o.Attrs["active"], types.Bool) && as(o.Attrs["active"], types.Bool).Null)
 
 // oneof branch holding a message
@@ -1189,6 +1295,8 @@ package main
 
 //@ emits CopyTo when IsMap && Kind != "Custom" && Ctx == "plain"
 //@ ensures [C03] imp(isCT, o.Elems != nil)
+//@ # ... and stays a tree
+//@ ensures [C09,C08] imp(isCT, o.Elems != tf.Attrs)
 //@ ensures [C03] imp(isCT && !prevOK, has(o.Elems, k0) == has(src, k0))
 //@ ensures [C09] imp(isCT, has(o.Elems, k0) == has(src, k0))
 //@ ensures [C08] imp(isCT, has(o.Elems, k0) == (has(src, k0) || (prevOK && has(prev.Elems, k0))))
@@ -1219,6 +1327,11 @@ package main
 //@ invariant[0] imp(done(j0) && inr && !weird, cev.Null == ($CastTo(src[j0]) == $ZeroValue))
 //@ ensures [C04] imp(isCT && inr && !weird, ev.Null == ($CastTo(src[j0]) == $ZeroValue))
 
+// elements of types without a zero literal (time, duration held by value) are always rendered
+//@ emits CopyTo when Kind == "PrimitiveList" && Ctx == "plain" && !IsNullable && !HasZero
+//@ invariant[0] imp(done(j0) && inr && !weird, !cev.Null)
+//@ ensures [C04] imp(isCT && inr && !weird, !ev.Null)
+
 //@ emits CopyTo when Kind == "PrimitiveList" && Ctx == "plain" && IsNullable
 //@ invariant[0] imp(done(j0) && inr && !weird, is(c.Elems[j0], $EVT) && !cev.Unknown && cev.Null == (src[j0] == nil) && imp(src[j0] != nil, same(cev.Value, $GoElemTypeIndirect(*src[j0]))))
 //@ ensures [C03,C19,C09,C08] imp(isCT && inr && !weird, is(el, $EVT) && !ev.Unknown && ev.Null == (src[j0] == nil) && imp(src[j0] != nil, same(ev.Value, $GoElemTypeIndirect(*src[j0]))))
@@ -1230,6 +1343,10 @@ package main
 //@ emits CopyTo when Kind == "PrimitiveMap" && Ctx == "plain" && !IsNullable && HasZero
 //@ invariant[0] imp(done(k0) && !weird, cev.Null == ($CastTo(src[k0]) == $ZeroValue))
 //@ ensures [C04] imp(isCT && inr && !weird, ev.Null == ($CastTo(src[k0]) == $ZeroValue))
+
+//@ emits CopyTo when Kind == "PrimitiveMap" && Ctx == "plain" && !IsNullable && !HasZero
+//@ invariant[0] imp(done(k0) && !weird, !cev.Null)
+//@ ensures [C04] imp(isCT && inr && !weird, !ev.Null)
 
 //@ emits CopyTo when Kind == "PrimitiveMap" && Ctx == "plain" && IsNullable
 //@ invariant[0] imp(done(k0) && !weird, is(c.Elems[k0], $EVT) && !cev.Unknown && cev.Null == (src[k0] == nil) && imp(src[k0] != nil, same(cev.Value, $GoElemTypeIndirect(*src[k0]))))
